@@ -110,10 +110,16 @@ ClassCoreness(r) ==
           THEN "inlink_free_core_member"
      ELSE "any"
 
+(* drift: the entry for k = 0, which the property does not fix, is what the     *)
+(* loop produces (the number of non-isolated nodes)                            *)
+DriftCoreness(r) ==
+  IF r.raised # "" \/ r.malformed # "" \/ Len(r.kn) = 0 THEN "na"
+  ELSE IF r.kn[1] = Cardinality(Alive(r.n, r.A, r.kind)) THEN "same" ELSE "differs:kn0"
+
 Judge(r) ==
   IF ~InDomain(r) THEN <<"skip:outside_domain", "na", "any">>
   ELSE IF IsCoreFn(r) THEN <<JudgeCore(r), DriftCore(r), r.kind>>
-  ELSE <<JudgeCoreness(r), "na", ClassCoreness(r)>>
+  ELSE <<JudgeCoreness(r), DriftCoreness(r), ClassCoreness(r)>>
 
 VARIABLES tid, verdict
 TInit == tid \in 1..Len(Recs) /\ verdict = <<>>
